@@ -5,3 +5,4 @@ import XPathV.Theorems.C11
 #print axioms XPathV.Theorems.C11.nodup_of_map
 #print axioms XPathV.Theorems.C11.C11_union
 #print axioms XPathV.Theorems.C11.sequence_is_union
+#print axioms XPathV.Theorems.C11.identity_key_recipe_ok
